@@ -82,6 +82,12 @@ package container
 //@   property C37
 //@   callee (acl.Basic).Extendable
 //@   defines result ==> aclExtendable()
+// An eACL change concerns one existing container: the owner's authorisation is verified with
+// that container given (a session token then has to apply to it); removal likewise.
+//@ callrule eacl_authorisation_names_the_container in (*Processor).checkSetEACL, (*Processor).checkDeleteContainer, (*Processor).checkRemoveAttributeRequest, (*Processor).checkSetAttributeRequest
+//@   property C37
+//@   callee (*container.Processor).verifySignature
+//@   requires [container_given_to_the_authorisation_check] a0.idContainerSet
 //@ func (*Processor).checkSetEACL
 //@   property C37
 //@   ensures [table_valid_acl_extendable_owner_authorised] err == nil ==> eaclTableValidated() && aclExtendable() && ownerAuthorised()
